@@ -36,7 +36,11 @@ def run_verus_part(rep):
     except (LostAnchor, RewriteRefused) as e:
         rep.notes.append("U-TERMEQ not generated (%s): Term::eq is then covered by the bounded Kani harnesses only" % e)
         return []
-    res = verus.run_verus(ID, "termeq", info["text"])
+    try:
+        res = verus.run_verus(ID, "termeq", info["text"])
+    except Undecided as e:
+        rep.notes.append("U-TERMEQ could not be checked (%s): Term::eq is then covered by the bounded Kani harnesses and the native stand-in only" % str(e)[:300])
+        return []
     rep.cuts.update(info["cuts"])
     rep.rewrites.update(info["rewrites"])
     for a in info["assumptions"]:
